@@ -278,3 +278,46 @@ func TestC15_NilErrorEnding(t *testing.T) {
 		}
 	}
 }
+
+// Subjects (C10): a subject terminated with Error(nil) behaves, for its current and
+// its late subscribers, like one terminated with Error(e).
+func TestC10_NilErrorEnding(t *testing.T) {
+	for _, k := range subjectKinds {
+		run := func(nilErr bool) (logs [][]string, flags string) {
+			rt.NewSink()
+			s := k.New()
+			early := rt.NewRecorder[int]()
+			s.Subscribe(early)
+			s.Next(1)
+			s.Next(2)
+			if nilErr {
+				s.Error(nil)
+			} else {
+				s.Error(rt.Err(1))
+			}
+			s.Next(3)
+			late := rt.NewRecorder[int]()
+			s.Subscribe(late)
+			for _, r := range []*rt.Recorder[int]{early, late} {
+				var l []string
+				for _, x := range r.Recs() {
+					switch x.K {
+					case 'N':
+						l = append(l, fmt.Sprintf("N%v", x.V))
+					default:
+						l = append(l, string(x.K))
+					}
+				}
+				logs = append(logs, l)
+			}
+			return logs, fmt.Sprintf("closed=%v thrown=%v completed=%v observers=%d", s.IsClosed(), s.HasThrown(), s.IsCompleted(), s.CountObservers())
+		}
+		l1, f1 := run(false)
+		l2, f2 := run(true)
+		c := map[string]any{"subject": k.String()}
+		if !reflect.DeepEqual(l1, l2) || f1 != f2 {
+			rt.Report(t, rt.Failure{Property: "C10", Check: "nil-error-ending", Op: k.String(), Class: "error-with-nil-value-treated-differently", Msg: fmt.Sprintf("%s [S N1 N2 Error N3 S]: with Error(e) the early / late subscribers see %v (%s); with Error(nil) %v (%s)", k, l1, f1, l2, f2), Case: c})
+		}
+		rt.Case(caseKey("nilerr-subject", k), true, "nil-error:subject", func() any { return c })
+	}
+}
